@@ -1,0 +1,7 @@
+//go:build !verif
+
+package dispatch
+
+// verifYield marks a scheduling point for the verification harness (build tag
+// verif). Without the tag it is an empty function that the compiler inlines away.
+func verifYield(point string, a ...any) {}
